@@ -336,22 +336,23 @@ func (cw *CountingWindow) getKey(data any) string {
 	v := reflect.ValueOf(data)
 	keyParts := make([]string, 0, len(keys))
 	for _, k := range keys {
-		var part string
+		var val any
 		switch v.Kind() {
 		case reflect.Map:
 			if v.Type().Key().Kind() == reflect.String {
 				mv := v.MapIndex(reflect.ValueOf(k))
 				if mv.IsValid() {
-					part = cast.ToString(mv.Interface())
+					val = mv.Interface()
 				}
 			}
 		case reflect.Struct:
 			f := v.FieldByName(k)
 			if f.IsValid() {
-				part = cast.ToString(f.Interface())
+				val = f.Interface()
 			}
 		}
-		keyParts = append(keyParts, part)
+		// Escaped so that values containing "|" and NULL vs "" never share a key.
+		keyParts = append(keyParts, cast.GroupKeyPart(val, '|'))
 	}
 	return strings.Join(keyParts, "|")
 }
